@@ -44,6 +44,7 @@ def register(db):
     register_set_data_tail(db)
     register_xsi_type_helpers(db)
     register_add_attribute(db)
+    register_encode_primitive(db)
     P = ["C03"]
     # abstract SAX callbacks: their calls are recorded on the ghost trace
     for m in ("start_document", "end_document", "start_element", "end_element", "set_characters",
@@ -340,3 +341,37 @@ def register_add_attribute(db):
             modifies=["self.attrs", "self.ns_map"], properties=["C03"],
             note="stated for a non-string value (a string that is an xsi:type name is turned into a QName first)",
         ))
+
+
+def register_encode_primitive(db):
+    """EventGenerator.encode_primitive: strings and QNames go to the writer as they are (a QName gets its prefix there,
+    per element), an enum member is encoded as its value, any other simple value is serialized by the converter with the
+    field's format."""
+    M = "xsdata.formats.dataclass.serializers.mixins"
+
+    def gen_cls(mk, base):
+        from pyvc.values import ClassRef
+        return ClassRef(M, "EventGenerator")
+
+    EP, SER = "EventGenerator.encode_primitive", "ConverterFactory.serialize"
+    db.add(Contract(f"{M}:{EP}", variant="call-view", trusted=True, call_default=True, params={}, returns="u:Any",
+                    raises={"ConverterError": True}, note="call-site view of the recursive call"))
+    for k in ("str", "QName", "tuple", "list", "set", "frozenset", "Enum", "Generator"):
+        db.opaque_isinst.setdefault(("Any", k), "uf")
+    db.add(Contract(
+        f"{M}:{EP}", variant="text", params={"cls": gen_cls, "value": "str", "var": "opaque:XmlVar"},
+        ensures=[("kept-as-given", "result == value")], raises={}, properties=["C03"],
+    ))
+    db.add(Contract(
+        f"{M}:{EP}", variant="enum-member", params={"cls": gen_cls, "value": "opaque:EnumValue", "var": "opaque:XmlVar"},
+        requires=["not uf('isinstance_EnumValue_str', 'bool', value)", "not uf('isinstance_EnumValue_QName', 'bool', value)"],
+        ensures=[("encoded-as-its-value", f"called('{EP}') == 1 and call_arg('{EP}', 1) == value.value and call_arg('{EP}', 2) is var and result is call_result('{EP}')")],
+        raises={"ConverterError": True}, properties=["C03"],
+    ))
+    db.add(Contract(
+        f"{M}:{EP}", variant="other-simple-value", params={"cls": gen_cls, "value": "opaque:Any", "var": "opaque:XmlVar"},
+        requires=["not uf('isinstance_Any_%s', 'bool', value)" % k for k in ("str", "QName", "tuple", "list", "set", "frozenset", "Enum", "Generator")],
+        ensures=[("serialized-once-with-the-field-format",
+                  f"called('{SER}') == 1 and call_arg('{SER}', 1) is value and call_kwarg('{SER}', 'format') == var.format and result == call_result('{SER}')")],
+        raises={"ConverterError": True}, properties=["C03"],
+    ))
